@@ -1,20 +1,13 @@
-import json as _json
-
 _LK = {"_link_direction_lookup": dict(coq="link_direction_lookup", key="Z2", elem="optZ"),
        "_direction_link_lookup": dict(coq="direction_link_lookup", key="Z", elem="optZ2")}
 
 UNITS = {
     # live tables of rig/links.py: Links members, _link_direction_lookup, _direction_link_lookup
     "GenGeometryLinks": dict(props=["C11"], dumper="dump_c11.py"),
-    # the hand-modelled functions: the spiral tail of shortest_torus_path translated statement by statement
-    # (torus_spiral), and the digest of each function's statements pinned to the text Model/Geometry.v was
-    # written and validated against (fail closed: a changed text breaks the unit until re-validated;
-    # `dump_c11.py digests` prints the current values)
-    "GenGeometryShapes": dict(props=["C11"], dumper="dump_c11.py", args=["shapes", _json.dumps({
-        "shortest_mesh_path": "d43370e5c7995c94",
-        "shortest_torus_path": "71ce51596f4e2d1f",
-        "concentric_hexagons": "9268db675ceb25b9",
-        "longest_dimension_first": "98dc6e29511880ed"})]),
+    # the hand-modelled functions (shortest_mesh_path, shortest_torus_path, longest_dimension_first,
+    # concentric_hexagons): tools/dump_c11.py matches each against the skeleton the model follows (fail
+    # closed) and translates the arithmetic / reads the constants inside the skeleton from the source text
+    "GenGeometryShapes": dict(props=["C11", "C03"], dumper="dump_c11.py", args=["shapes"]),
     # integer kernels translated from the source text
     "GenGeometry": dict(
         props=["C11"],
